@@ -54,12 +54,27 @@ pub struct Occurrence {
 pub struct Resolution {
     pub occurrences: Vec<Occurrence>,
     pub decl_count: usize,
+    /// declarations made with `const` (Luau refuses to compile an assignment to one of them)
+    pub const_decls: Vec<usize>,
+}
+
+impl Resolution {
+    /// names of `const` variables that are assigned (plain or compound assignment, `function name()`)
+    pub fn assigned_constants(&self) -> Vec<String> {
+        self.occurrences
+            .iter()
+            .filter(|o| matches!(o.role, Role::AssignTarget | Role::FuncStmtBase))
+            .filter(|o| o.decl.map(|d| self.const_decls.contains(&d)).unwrap_or(false))
+            .map(|o| o.name.clone())
+            .collect()
+    }
 }
 
 struct Resolver {
     occ: Vec<Occurrence>,
     decls: usize,
     scopes: Vec<Vec<(String, usize)>>,
+    consts: Vec<usize>,
 }
 
 impl Resolver {
@@ -161,10 +176,13 @@ impl Resolver {
 
     fn stmt(&mut self, s: &Stmt) {
         match s {
-            Stmt::Local { is_const: _, names, values } => {
+            Stmt::Local { is_const, names, values } => {
                 let mut ids = Vec::with_capacity(names.len());
                 for n in names {
                     ids.push(self.declare_occ(&n.name, Role::LocalDecl));
+                    if *is_const {
+                        self.consts.push(*ids.last().unwrap());
+                    }
                     self.opt_ty(&n.ty);
                 }
                 for v in values {
@@ -241,9 +259,12 @@ impl Resolver {
                 self.reference(&name.base, Role::FuncStmtBase);
                 self.func(func, name.method.is_some());
             }
-            Stmt::LocalFunction { attrs, is_const: _, name, func } => {
+            Stmt::LocalFunction { attrs, is_const, name, func } => {
                 self.attrs(attrs);
                 let id = self.declare_occ(name, Role::LocalFuncName);
+                if *is_const {
+                    self.consts.push(id);
+                }
                 self.bind(name, id);
                 self.func(func, false);
             }
@@ -301,8 +322,11 @@ impl Resolver {
                     self.expr(a);
                 }
             }
-            Expr::MethodCall { obj, args, .. } => {
+            Expr::MethodCall { obj, types, args, .. } => {
                 self.expr(obj);
+                for t in types.iter().flatten() {
+                    self.type_arg(t);
+                }
                 for a in args {
                     self.expr(a);
                 }
@@ -424,9 +448,9 @@ impl Resolver {
 }
 
 pub fn resolve(block: &Block) -> Resolution {
-    let mut r = Resolver { occ: Vec::new(), decls: 0, scopes: Vec::new() };
+    let mut r = Resolver { occ: Vec::new(), decls: 0, scopes: Vec::new(), consts: Vec::new() };
     r.block(block);
-    Resolution { occurrences: r.occ, decl_count: r.decls }
+    Resolution { occurrences: r.occ, decl_count: r.decls, const_decls: r.consts }
 }
 
 #[cfg(test)]
